@@ -17,6 +17,7 @@ specification:
   adv_h/adv_v W/DW and W2/DW2 arrays, pen movement, vertical position vector
   shared      2-3 Type0 fonts (different Encoding and/or ToUnicode) over ONE indirect descendant CIDFont, font
               caching on, fonts interleaved on one page or spread over two pages
+  ws1         one-byte identity font, Tw != 0, one-byte code 32 shown (TAGGED: known finding)
   vdef        vertical default position vector (w0/2 from W/DW) — own family, tag kept for classification
 
 CMapDB.get_cmap(name).decode and CMapDB.get_unicode_map(...).get_unichr are also
@@ -49,13 +50,16 @@ RULE = (
     "0/4 cmap tables; adv_*: random W/DW/W2/DW2 arrays in both syntaxes with agreeing overlaps and indirect elements, "
     "DW 0 / tiny DW and DW2[1]=0 together with a non-zero descriptor MissingWidth (never a CIDFont width source); "
     "shared: 2-3 Type0 fonts differing in Encoding (1-/2-byte, H/V) and/or ToUnicode over one shared indirect CIDFont, "
-    "caching on, interleaved lines on one or two pages, each line judged by its own font. "
+    "caching on, interleaved lines on one or two pages, each line judged by its own font; "
+    "text state: Tc/Tw/Tz drawn for about half of the ident/adv/shared and a third of the tounicode cases, and with "
+    "Tw != 0 the code <0020> (CID 32) leads every line of a two-byte font. "
     "distinct = distinct case descriptions; non-trivial = at least one glyph expected. "
     "Left out as undefined/ambiguous: bfrange whose last destination byte would overflow (9.10.3), destinations that are "
     "not UTF-16BE (odd length, lone surrogates), a source code defined twice, conflicting overlapping W/W2 entries, "
     "kana under the Big5 legacy CMaps and every vendor extension outside shift_jis/euc_jp(2-byte)/gb2312/gbk/big5/"
     "cp949/euc_kr, CID 0 and glyphs reached from several characters in TrueType cmaps, CIDToGIDMap streams, "
-    "non-trivial text state (Tc/Tw/Tz/Ts/CTM: C05), the y-extent of vertical glyph boxes; a partial trailing code may be "
+    "text rise and CTM (C05), the y-extent of vertical glyph boxes and their x-position when Tz != 100, the one-byte code "
+    "32 together with Tw != 0 outside the tagged family ws1; a partial trailing code may be "
     "dropped or shown as one notdef glyph; ToUnicode+non-identity CMap and (historically) the vertical default "
     "position vector are generated only as tagged families."
 )
@@ -70,12 +74,15 @@ ASSUMPTIONS = [
     "it is used to observe the CID and 'no Unicode defined'",
     "the source codes of a bfrange are the consecutive integers lo..hi (a two-byte range may cross a low-byte boundary)",
     "the left edge of a vertical glyph's box is glyph origin 0, i.e. pen_x - vx/1000*Tfs (ISO 32000-1 9.7.4.3 figure 40)",
-    "the text state is kept trivial (Tc=Tw=0, Tz=100, Ts=0, CTM=identity): spacing parameters belong to C05",
+    "Ts=0 and CTM=identity throughout (C05); Tc, Tw and Tz are varied in the ident/tounicode/adv/shared families and "
+    "judged by 9.4.4 (tx = ((w0-Tj/1000)*Tfs+Tc+Tw)*Th, ty = (w1-Tj/1000)*Tfs+Tc+Tw) and 9.3.3 (Tw only for the "
+    "single-byte code 32); with Tz != 100 the sideways position of a vertical glyph's box is not asserted",
 ]
 SHARD_TIMEOUT = {"quick": 600, "thorough": 5400}
 
 TAG_TU_NONID = "tounicode+nonidentity_cmap"
 TAG_VDEF = "vertical_default_vx_ignores_w0"
+TAG_WS1 = "wordspace+singlebyte_code32_composite"
 
 # --------------------------------------------------------------------------
 # numbers in case descriptions: int, or str with the exact decimal spelling
@@ -334,10 +341,18 @@ def _show_ops(ln: Dict[str, Any]) -> List[bytes]:
     return out
 
 
-def build_pdf(font: Dict[str, Any], lines: List[Dict[str, Any]], fs: Num) -> bytes:
+def _ts_ops(ts: Optional[Dict[str, Any]]) -> List[bytes]:
+    out = []
+    for k in ("Tc", "Tw", "Tz"):
+        if ts and ts.get(k) is not None:
+            out.append(ser(pnum(ts[k])) + b" " + k.encode())
+    return out
+
+
+def build_pdf(font: Dict[str, Any], lines: List[Dict[str, Any]], fs: Num, ts: Optional[Dict[str, Any]] = None) -> bytes:
     doc = Doc()
     fref = _add_type0(doc, font, _add_cidfont(doc, font))
-    out = [b"BT", b"/F1 " + ser(pnum(fs)) + b" Tf"]
+    out = [b"BT", b"/F1 " + ser(pnum(fs)) + b" Tf"] + _ts_ops(ts)
     for ln in lines:
         out += _show_ops(ln)
     out.append(b"ET")
@@ -345,7 +360,8 @@ def build_pdf(font: Dict[str, Any], lines: List[Dict[str, Any]], fs: Num) -> byt
     return doc.build()
 
 
-def build_pdf_shared(cidfont: Dict[str, Any], fonts: List[Dict[str, Any]], lines: List[Dict[str, Any]], fs: Num) -> bytes:
+def build_pdf_shared(cidfont: Dict[str, Any], fonts: List[Dict[str, Any]], lines: List[Dict[str, Any]], fs: Num,
+                     ts: Optional[Dict[str, Any]] = None) -> bytes:
     """Several Type0 fonts over ONE indirect descendant CIDFont; every line selects its font (and page)."""
     doc = Doc()
     cidref = _add_cidfont(doc, cidfont)
@@ -354,7 +370,7 @@ def build_pdf_shared(cidfont: Dict[str, Any], fonts: List[Dict[str, Any]], lines
     npages = 1 + max(ln.get("page", 0) for ln in lines)
     pages = []
     for p in range(npages):
-        out = [b"BT"]
+        out = [b"BT"] + _ts_ops(ts)  # the text state starts afresh on every page
         for ln in lines:
             if ln.get("page", 0) != p:
                 continue
@@ -437,10 +453,25 @@ def observe(data: bytes, caching: bool = False, npages: int = 1) -> Tuple[Option
 # --------------------------------------------------------------------------
 # reference model of the text-showing part (ISO 32000-1 9.4.4, Tc=Tw=0, Th=1, Trise=0)
 # --------------------------------------------------------------------------
-def model(lines: List[Dict[str, Any]], fs: Num, vertical: bool, split, glyph) -> List[Dict[str, Any]]:
-    """split(bytes) -> [(code, optional)], glyph(code) -> dict(cid, text, w[, vx]) (w: w0 or w1y in glyph units)."""
+def ts_values(ts: Optional[Dict[str, Any]]) -> Tuple[float, float, float]:
+    """(Tc, Tw, Th) of a case's text state; defaults 0, 0, 1."""
+    if not ts:
+        return 0.0, 0.0, 1.0
+    return fnum(ts.get("Tc", 0)), fnum(ts.get("Tw", 0)), fnum(ts.get("Tz", 100)) / 100.0
+
+
+def model(lines: List[Dict[str, Any]], fs: Num, vertical: bool, split, glyph, ts: Optional[Dict[str, Any]] = None,
+          nbytes: Optional[int] = None, apply_ws: bool = True) -> List[Dict[str, Any]]:
+    """split(bytes) -> [(code, optional)], glyph(code) -> dict(cid, text, w[, vx]) (w: w0 or w1y in glyph units).
+
+    Pen movement per 9.4.4:  tx = ((w0 - Tj/1000) * Tfs + Tc + Tw) * Th     (horizontal writing)
+                             ty =  (w1 - Tj/1000) * Tfs + Tc + Tw           (vertical writing: no Th)
+    Tw is added only for the single-byte code 32 (9.3.3): never for <0020> as part of a two-byte code, and for a
+    composite font only if its CMap makes 32 a one-byte code (nbytes == 1).  LTChar.adv is the glyph's own
+    displacement (w0*Tfs*Th resp. w1*Tfs), without Tc / Tw."""
     out: List[Dict[str, Any]] = []
     f = fnum(fs)
+    tc, tw, th = ts_values(ts)
     for ln in lines:
         a, b, c, d, e, g = [fnum(v) for v in ln["tm"]]
         x = y = 0.0
@@ -451,20 +482,23 @@ def model(lines: List[Dict[str, Any]], fs: Num, vertical: bool, split, glyph) ->
                     if vertical:
                         y -= fnum(it) / 1000.0 * f
                     else:
-                        x -= fnum(it) / 1000.0 * f
+                        x -= fnum(it) / 1000.0 * f * th
                     continue
                 for code, optional in split(bytes(it)):
                     gl = dict(glyph(code))
-                    adv = gl["w"] / 1000.0 * f
+                    adv = gl["w"] / 1000.0 * f * (1.0 if vertical else th)
                     gl.update({"code": code, "adv": adv, "pen": (a * x + c * y + e, b * x + d * y + g), "a": a,
                                "opt": optional})
+                    if vertical and th != 1.0:
+                        gl["vx"] = None  # where Th puts the glyph origin sideways is not asserted
                     out.append(gl)
                     if optional:
                         continue  # only ever the last glyph of a line
+                    ws = tw if (apply_ws and nbytes == 1 and code == 32) else 0.0
                     if vertical:
-                        y += adv
+                        y += gl["w"] / 1000.0 * f + tc + ws
                     else:
-                        x += adv
+                        x += (gl["w"] / 1000.0 * f + tc + ws) * th
     return out
 
 
@@ -570,12 +604,12 @@ def cid_text(cid: int) -> str:
     return "(cid:%d)" % cid
 
 
-def realise(case: Dict[str, Any]):
+def realise(case: Dict[str, Any], apply_ws: bool = True):
     fam = case["fam"]
     fs = case.get("fs", 10)
     lines = case["lines"]
 
-    if fam in ("ident", "tounicode", "ttf", "adv_h", "adv_v", "vdef"):
+    if fam in ("ident", "tounicode", "ttf", "adv_h", "adv_v", "vdef", "ws1"):
         name, form, nbytes, vertical = case["cmap"], case["enc_form"], case["nbytes"], case["vertical"]
         font: Dict[str, Any] = {"cmap": name, "enc_form": form, "nbytes": nbytes, "vertical": vertical,
                                 "ros": ["Adobe", "Identity", 0], "cidsub": case.get("cidsub", "CIDFontType2"),
@@ -617,7 +651,7 @@ def realise(case: Dict[str, Any]):
                 return {"cid": cid, "text": text, "w": dw2[1], "vx": wmap.get(cid, dw) / 2.0}
             return {"cid": cid, "text": text, "w": wmap.get(cid, dw)}
 
-        exp = model(lines, fs, vertical, split_fixed(nbytes), glyph)
+        exp = model(lines, fs, vertical, split_fixed(nbytes), glyph, case.get("ts"), nbytes, apply_ws)
         return font, lines, fs, exp, vertical
 
     if fam in ("cjk_legacy", "cjk_unicode", "tu_nonid"):
@@ -756,7 +790,7 @@ def check_case(case: Dict[str, Any]) -> Tuple[List[Tuple[str, str]], Dict[str, A
         return check_shared(case)
     stats: Dict[str, Any] = {"glyphs": 0}
     font, lines, fs, exp, vertical = realise(case)
-    data = build_pdf(font, lines, fs)
+    data = build_pdf(font, lines, fs, case.get("ts"))
     obs, err = observe(data)
     fails: List[Tuple[str, str]] = []
     nexp = sum(1 for e in exp if not e["opt"])
@@ -769,6 +803,8 @@ def check_case(case: Dict[str, Any]) -> Tuple[List[Tuple[str, str]], Dict[str, A
             fails += _compare_tagged_tu(case, exp, obs, vertical, fs)
         elif fam == "vdef":
             fails += _compare_tagged_vdef(case, exp, obs, fs)
+        elif fam == "ws1":
+            fails += _compare_tagged_ws1(case, exp, obs, vertical, fs)
         else:
             fails += [(k, "%s: %s" % (_brief(case), d)) for k, d in compare(fam, vertical, fs, exp, obs)]
     # direct API
@@ -832,10 +868,10 @@ def check_shared(case: Dict[str, Any]) -> Tuple[List[Tuple[str, str]], Dict[str,
     exps = []
     for ln in lines:
         f = fonts[ln["font"]]
-        exps.append(model([ln], fs, f["vertical"], split_fixed(f["nbytes"]), gfs[ln["font"]]))
+        exps.append(model([ln], fs, f["vertical"], split_fixed(f["nbytes"]), gfs[ln["font"]], case.get("ts"), f["nbytes"]))
     total = sum(len(e) for e in exps)
     stats = {"glyphs": total}
-    data = build_pdf_shared(cidfont, fonts, lines, fs)
+    data = build_pdf_shared(cidfont, fonts, lines, fs, case.get("ts"))
     npages = 1 + max(ln.get("page", 0) for ln in lines)
     obs, err = observe(data, caching=True, npages=npages)
     if err is not None:
@@ -907,6 +943,19 @@ def _compare_tagged_tu(case, exp, obs, vertical, fs) -> List[Tuple[str, str]]:
              "(ToUnicode indexed by CID)" % (_brief(case), e["code"], o["cid"], e["text"], o["text"]))]
 
 
+def _compare_tagged_ws1(case, exp, obs, vertical, fs) -> List[Tuple[str, str]]:
+    """Composite font whose CMap makes 32 a ONE-byte code, Tw != 0, code 32 shown: word spacing applies (9.3.3).
+    A deviation gets the tag only if the page is exactly what results from never adding Tw."""
+    fails = [(k, "%s: %s" % (_brief(case), d)) for k, d in compare("ws1", vertical, fs, exp, obs)]
+    if not fails:
+        return []
+    alt = realise(case, apply_ws=False)[3]
+    if not compare("ws1", vertical, fs, alt, obs):
+        return [(TAG_WS1, "%s Tw=%s: %s (the page is exactly what results from never adding the word spacing after the "
+                 "one-byte code 32)" % (_brief(case), case["ts"].get("Tw"), fails[0][1]))]
+    return fails
+
+
 def _compare_tagged_vdef(case, exp, obs, fs) -> List[Tuple[str, str]]:
     """Vertical font with DW/W != 1000 and glyphs without W2 entry: default vx = w0/2 (9.7.4.3)."""
     fam = "vdef"
@@ -945,8 +994,55 @@ def _rand_bytes(rng: random.Random, n: int) -> bytes:
     return bytes(rng.choice(pool) if rng.random() < 0.3 else rng.randrange(256) for _ in range(n))
 
 
-def gen_ident(rng: random.Random) -> Dict[str, Any]:
-    name, form, nbytes, vertical = rng.choice(IDENT_KINDS)
+def gen_ts(rng: random.Random, p: float = 0.5) -> Optional[Dict[str, Any]]:
+    """A non-trivial text state: character spacing, word spacing, horizontal scaling."""
+    if rng.random() >= p:
+        return None
+    ts: Dict[str, Any] = {}
+    if rng.random() < 0.7:
+        ts["Tc"] = rng.choice([0, "0.5", "-0.25", 2, "1.5", -1])
+    if rng.random() < 0.7:
+        ts["Tw"] = rng.choice([3, "-1.5", 10, "2.25", 0, 7])
+    if rng.random() < 0.6:
+        ts["Tz"] = rng.choice([100, 50, 200, 75, 125, "62.5"])
+    return ts or None
+
+
+def _map_strings(lines: List[Dict[str, Any]], fn) -> None:
+    for ln in lines:
+        for op in ln["shows"]:
+            if op[0] == "Tj":
+                op[1] = fn(bytes(op[1]))
+            else:
+                op[1] = [fn(bytes(it)) if isinstance(it, (bytes, bytearray)) else it for it in op[1]]
+
+
+def _prepend(lines: List[Dict[str, Any]], head: bytes) -> None:
+    """Put one more code in front of the first string of every line (so that glyphs follow it)."""
+    for ln in lines:
+        op = ln["shows"][0]
+        if op[0] == "Tj":
+            op[1] = head + bytes(op[1])
+        else:
+            for k, it in enumerate(op[1]):
+                if isinstance(it, (bytes, bytearray)):
+                    op[1][k] = head + bytes(it)
+                    break
+
+
+def apply_ts(case_ts: Optional[Dict[str, Any]], lines: List[Dict[str, Any]], nbytes: int, keep_space: bool = False) -> None:
+    """With Tw != 0: two-byte fonts get the code <0020> (CID 32, no word spacing: it is not a single-byte code);
+    one-byte composite fonts lose the code 32 (that combination is the tagged family ws1)."""
+    if not case_ts or fnum(case_ts.get("Tw", 0)) == 0:
+        return
+    if nbytes == 2:
+        _prepend(lines, b"\x00\x20")
+    elif not keep_space:
+        _map_strings(lines, lambda b: b.replace(b"\x20", b"\x21"))
+
+
+def gen_ident(rng: random.Random, only_onebyte: bool = False) -> Dict[str, Any]:
+    name, form, nbytes, vertical = rng.choice(IDENT_KINDS[6:] if only_onebyte else IDENT_KINDS)
     lines = []
     for _ in range(rng.randint(1, 4)):
         shows: List[Any] = []
@@ -970,9 +1066,32 @@ def gen_ident(rng: random.Random) -> Dict[str, Any]:
             else:
                 shows.append(["Tj", s, rng.randrange(2)])
         lines.append({"tm": gen_tm(rng), "shows": shows})
-    return {"fam": "ident", "cmap": name, "enc_form": form, "nbytes": nbytes, "vertical": vertical,
+    case = {"fam": "ident", "cmap": name, "enc_form": form, "nbytes": nbytes, "vertical": vertical,
             "cidsub": rng.choice(["CIDFontType2", "CIDFontType0"]), "cidtogid": rng.random() < 0.3,
             "fs": rng.choice(FS_CHOICES), "lines": lines}
+    if only_onebyte:
+        return case
+    ts = gen_ts(rng)
+    if ts:
+        case["ts"] = ts
+        apply_ts(ts, lines, nbytes)
+    return case
+
+
+def gen_ws1(rng: random.Random) -> Dict[str, Any]:
+    """One-byte identity font, Tw != 0 and the one-byte code 32 shown (TAGGED, see TAG_WS1)."""
+    case = gen_ident(rng, only_onebyte=True)
+    case["fam"] = "ws1"
+    ts = gen_ts(rng, 1.0) or {}
+    ts["Tw"] = rng.choice([3, "-1.5", 10, "2.25", 7])
+    case["ts"] = ts
+    _prepend(case["lines"], b"\x20")
+    return case
+
+
+WITNESS_WS1 = {"fam": "ws1", "cmap": "OneByteIdentityH", "enc_form": "stream", "nbytes": 1, "vertical": False,
+               "cidsub": "CIDFontType2", "cidtogid": False, "fs": 10, "ts": {"Tw": 10},
+               "lines": [{"tm": [1, 0, 0, 1, 100, 700], "shows": [["Tj", b" A", 1]]}]}
 
 
 # ---- ToUnicode programs ---------------------------------------------------
@@ -1131,8 +1250,13 @@ def gen_tounicode(rng: random.Random) -> Dict[str, Any]:
         extra.update(rng.randrange(top) for _ in range(6))
         codes += [c for c in extra if 0 <= c < top and c not in umap]
     rng.shuffle(codes)
-    return {"fam": "tounicode", "cmap": name, "enc_form": form, "nbytes": nbytes, "vertical": vertical,
+    case = {"fam": "tounicode", "cmap": name, "enc_form": form, "nbytes": nbytes, "vertical": vertical,
             "tounicode": prog, "fs": rng.choice(FS_CHOICES), "lines": _chunk_codes(rng, codes, nbytes)}
+    ts = gen_ts(rng, 0.3)
+    if ts:
+        case["ts"] = ts
+        apply_ts(ts, case["lines"], nbytes)
+    return case
 
 
 # ---- CJK ------------------------------------------------------------------
@@ -1448,6 +1572,10 @@ def gen_adv(rng: random.Random, vertical: bool) -> Dict[str, Any]:
     cids += [rng.randrange(65536) for _ in range(rng.randint(1, 6))]
     rng.shuffle(cids)
     case["lines"] = _chunk_codes(rng, cids, 2, per_line=rng.choice([5, 12, 40]))
+    ts = gen_ts(rng, 0.6)
+    if ts:
+        case["ts"] = ts
+        apply_ts(ts, case["lines"], 2)
     return case
 
 
@@ -1514,6 +1642,11 @@ def gen_shared(rng: random.Random) -> Dict[str, Any]:
         for k, ln in enumerate(lines):
             ln["page"] = 0 if k < cut else 1
     case["lines"] = lines
+    ts = gen_ts(rng, 0.5)
+    if ts:
+        case["ts"] = ts
+        for i, f in enumerate(fonts):
+            apply_ts(ts, [ln for ln in lines if ln["font"] == i], f["nbytes"])
     return case
 
 
@@ -1559,6 +1692,9 @@ def minimums(tier: str) -> Dict[str, int]:
                 "cases:shared": 200, "shared_fonts": 400, "shared_two_page_docs": 40, "shared_mixed_writing_modes": 60,
                 "shared_mixed_code_lengths": 50, "shared_same_encoding_different_tounicode": 30,
                 "dw_zero_with_missingwidth": 15, "dw2_zero_with_missingwidth": 12, "missingwidth_in_descriptor": 350,
+                "cases:ws1": 30, "ts_cases": 800, "ts_tc_nonzero": 400, "ts_tz_not_100": 350, "ts_tz_not_100_vertical": 150,
+                "ts_tw_nonzero": 450, "ts_tw_with_twobyte_cid32": 400, "ts_tw_with_twobyte_cid32_vertical": 150,
+                "ts_tw_with_onebyte_code32": 30,
                 "seen:cjk_cmaps": 48, "seen:ident_kinds": 8, "seen:tu_headers": 3, "seen:ttf_layouts": 10,
                 "class:kana": 6000, "class:hangul": 3500, "class:ideograph": 25000}
     return {"evaluations": 60000, "distinct": 58000, "glyphs_compared": 5000000,
@@ -1573,6 +1709,9 @@ def minimums(tier: str) -> Dict[str, int]:
             "cases:shared": 3000, "shared_fonts": 6000, "shared_two_page_docs": 700, "shared_mixed_writing_modes": 1000,
             "shared_mixed_code_lengths": 900, "shared_same_encoding_different_tounicode": 500,
             "dw_zero_with_missingwidth": 350, "dw2_zero_with_missingwidth": 350, "missingwidth_in_descriptor": 7000,
+            "cases:ws1": 200, "ts_cases": 10000, "ts_tc_nonzero": 5000, "ts_tz_not_100": 4500, "ts_tz_not_100_vertical": 2000,
+            "ts_tw_nonzero": 5500, "ts_tw_with_twobyte_cid32": 5000, "ts_tw_with_twobyte_cid32_vertical": 2000,
+            "ts_tw_with_onebyte_code32": 200,
             # the exhaustive part is deterministic: the sizes of the codec-defined domains summed over the 48 CMaps
             "cjk_exhaustive_chars": 636000, "class:kana": 8000, "class:hangul": 117000, "class:ideograph": 510000,
             "seen:cjk_cmaps": 48, "seen:ident_kinds": 8, "seen:tu_headers": 3, "seen:ttf_layouts": 10}
@@ -1592,7 +1731,7 @@ def shards(tier: str, seed: int) -> List[Dict[str, Any]]:
             out.append({"kind": "rand", "fam": "adv_h", "n": 140, "sub": 300 + k})
         for k in range(4):
             out.append({"kind": "rand", "fam": "adv_v", "n": 140, "sub": 400 + k})
-        out.append({"kind": "rand", "fam": "tagged", "n": 120, "sub": 500})
+        out.append({"kind": "rand", "fam": "tagged", "n": 200, "sub": 500})
         for k in range(2):
             out.append({"kind": "rand", "fam": "shared", "n": 130, "sub": 550 + k})
         for k in range(0, len(cms), 4):
@@ -1609,7 +1748,7 @@ def shards(tier: str, seed: int) -> List[Dict[str, Any]]:
     for k in range(16):
         out.append({"kind": "rand", "fam": "adv_v", "n": 700, "sub": 400 + k})
     for k in range(2):
-        out.append({"kind": "rand", "fam": "tagged", "n": 450, "sub": 500 + k})
+        out.append({"kind": "rand", "fam": "tagged", "n": 600, "sub": 500 + k})
     for k in range(8):
         out.append({"kind": "rand", "fam": "shared", "n": 500, "sub": 550 + k})
     for k in range(len(cms)):
@@ -1686,6 +1825,25 @@ def _account(case: Dict[str, Any], stats: Dict[str, Any], rec) -> None:
                 if any(c in seen for c in cs):
                     rec.count(name + "_overlap_items")
                 seen.update(cs)
+    ts = case.get("ts")
+    if ts:
+        tc, tw, th = ts_values(ts)
+        rec.count("ts_cases")
+        fonts = case["fonts"] if fam == "shared" else [case]
+        if tc:
+            rec.count("ts_tc_nonzero")
+        if th != 1.0:
+            rec.count("ts_tz_not_100")
+            if any(f["vertical"] for f in fonts):
+                rec.count("ts_tz_not_100_vertical")
+        if tw:
+            rec.count("ts_tw_nonzero")
+            if any(f["nbytes"] == 2 for f in fonts):
+                rec.count("ts_tw_with_twobyte_cid32")   # <0020> is put in front of every line of such a font
+            if any(f["nbytes"] == 2 and f["vertical"] for f in fonts):
+                rec.count("ts_tw_with_twobyte_cid32_vertical")
+            if fam == "ws1":
+                rec.count("ts_tw_with_onebyte_code32")
     if fam == "shared":
         rec.count("shared_fonts", len(case["fonts"]))
         rec.count("shared_fonts_with_tounicode", sum(1 for f in case["fonts"] if f.get("tounicode") is not None))
@@ -1743,7 +1901,7 @@ def run_shard(spec: Dict[str, Any], rec) -> None:
             elif fam == "shared":
                 case = gen_shared(rng)
             else:
-                case = gen_tu_nonid(rng) if i % 3 else gen_vdef(rng)
+                case = gen_vdef(rng) if i % 4 == 0 else (gen_ws1(rng) if i % 4 == 1 else gen_tu_nonid(rng))
             _run_case(case, rec)
         return
     cms = cjk_cmaps()
